@@ -473,7 +473,9 @@ where
             if buf.ends_with(&[LINE_FEED]) {
                 buf.pop();
 
-                if buf.ends_with(&[CARRIAGE_RETURN]) {
+                // `buf` may already hold data, which is not part of the line ending, i.e., a
+                // carriage return is only removed when it was read with the line feed.
+                if n > 1 && buf.ends_with(&[CARRIAGE_RETURN]) {
                     buf.pop();
                 }
             }
